@@ -31,7 +31,7 @@ package types
 //@ func types.LoadNodeInformation
 //@   nopanic[*]
 //@   ensures[* failclosed] err != nil ==> ret == nil
-//@   ensures[* found] err == nil ==> ret != nil && fresh(ret) && id != "" && StHas("nodeinfo", id) && loadedFrom(ret, StGet("nodeinfo", id))
+//@   ensures[* found] err == nil ==> ret != nil && fresh(ret) && id != "" && ret.Id == id && StHas("nodeinfo", id) && loadedFrom(ret, StGet("nodeinfo", id))
 //@   ensures[* notfound] reliable() && err != nil && storage != nil && id != "" && !opts(opt).Err && isNotFound(err) ==> !StHas("nodeinfo", id)
 
 //@ func types.LoadNodeInformationSetByNodeId
@@ -171,3 +171,55 @@ package types
 //@   modifies StRoots, r.State
 //@   loop 0 unroll 2
 //@   loop 1 unroll 2
+
+// ---------------------------------------------------------------- NodeInformation.Store (C12, C13, C04)
+//
+// storedNode(s, n): stored record s carries n's public part (everything but the
+// server encryption private key, which is sealed when a storage wrapper is in use)
+//@ pred storedNode(s, n) := s != nil && s.Id == n.Id && s.NodeId == n.NodeId
+//@   | && bytes(s.CertificatePublicKeyPkix) == bytes(n.CertificatePublicKeyPkix) && s.CertificatePublicKeyType == n.CertificatePublicKeyType
+//@   | && bytes(s.EncryptionPublicKeyBytes) == bytes(n.EncryptionPublicKeyBytes) && s.EncryptionPublicKeyType == n.EncryptionPublicKeyType
+//@   | && bytes(s.RegistrationNonce) == bytes(n.RegistrationNonce) && s.ServerEncryptionPrivateKeyType == n.ServerEncryptionPrivateKeyType
+//@   | && s.State == n.State && s.CertificateBundles == n.CertificateBundles
+
+//@ func types.(*NodeInformation).Store
+//@   nopanic[*]
+//@   ensures[* stored] err == nil ==> n != nil && n.Id != "" && StHas("nodeinfo", n.Id) && storedNode(StGet("nodeinfo", n.Id), n)
+//@   ensures[* clear] err == nil && opts(opt).WithStorageWrapper == nil ==>
+//@   |   bytes(StGet("nodeinfo", n.Id).ServerEncryptionPrivateKeyBytes) == bytes(n.ServerEncryptionPrivateKeyBytes)
+//@   |   && StGet("nodeinfo", n.Id).WrappingKeyId == n.WrappingKeyId
+//@   ensures[C12 sealed] err == nil && opts(opt).WithStorageWrapper != nil ==> StGet("nodeinfo", n.Id).WrappingKeyId == wKeyId(opts(opt).WithStorageWrapper)
+//@   |   && (len(n.ServerEncryptionPrivateKeyBytes) > 0 ==> sealedBy(StGet("nodeinfo", n.Id).ServerEncryptionPrivateKeyBytes,
+//@   |         opts(opt).WithStorageWrapper, n.ServerEncryptionPrivateKeyBytes, n.CertificatePublicKeyPkix))
+//@   ensures[* failed] err != nil && n != nil ==> StHas("nodeinfo", n.Id) == old(StHas("nodeinfo", n.Id)) && StGet("nodeinfo", n.Id) == old(StGet("nodeinfo", n.Id))
+//@   ensures[* others] forall id String :: n == nil || id != n.Id ==> StHas("nodeinfo", id) == old(StHas("nodeinfo", id)) && StGet("nodeinfo", id) == old(StGet("nodeinfo", id))
+//@   modifies StNodeInfo
+
+// ---------------------------------------------------------------- ServerLedActivationToken Store / Load (C06, C12, C13)
+//
+// unMts(c): instant encoded by a marshaled Timestamp c.
+
+//@ func types.(*ServerLedActivationToken).Store
+//@   nopanic[*]
+//@   ensures[* stored] err == nil ==> s != nil && s.Id != "" && StHas("token", s.Id) && StGet("token", s.Id) != nil
+//@   |   && StGet("token", s.Id).Id == s.Id && StGet("token", s.Id).State == s.State
+//@   ensures[* cleartime] err == nil && opts(opt).WithStorageWrapper == nil ==>
+//@   |   unMts(bytes(StGet("token", s.Id).CreationTimeMarshaled)) == tsTime(s.CreationTime) && StGet("token", s.Id).WrappingKeyId == s.WrappingKeyId
+//@   ensures[C12,* sealed] err == nil && opts(opt).WithStorageWrapper != nil ==> StGet("token", s.Id).WrappingKeyId == wKeyId(opts(opt).WithStorageWrapper)
+//@   |   && StGet("token", s.Id).CreationTime == nil
+//@   |   && exists mt String :: unMts(mt) == tsTime(s.CreationTime) && sealedBy(StGet("token", s.Id).CreationTimeMarshaled, opts(opt).WithStorageWrapper, mt, s.Id)
+//@   ensures[* failed] err != nil && s != nil ==> StHas("token", s.Id) == old(StHas("token", s.Id)) && StGet("token", s.Id) == old(StGet("token", s.Id))
+//@   ensures[* others] forall id String :: s == nil || id != s.Id ==> StHas("token", id) == old(StHas("token", id)) && StGet("token", id) == old(StGet("token", id))
+//@   modifies StToken, s.CreationTimeMarshaled
+
+//@ func types.LoadServerLedActivationToken
+//@   nopanic[*]
+//@   ensures[* failclosed] err != nil ==> ret == nil
+//@   ensures[* found] err == nil ==> ret != nil && fresh(ret) && id != "" && ret.Id == id && StHas("token", id)
+//@   |   && ret.State == StGet("token", id).State && ret.CreationTime != nil && fresh(ret.CreationTime)
+//@   ensures[* cleartime] err == nil && StGet("token", id).WrappingKeyId == "" ==>
+//@   |   tsTime(ret.CreationTime) == unMts(bytes(StGet("token", id).CreationTimeMarshaled))
+//@   ensures[* sealedtime] err == nil && StGet("token", id).WrappingKeyId != "" ==> opts(opt).WithStorageWrapper != nil
+//@   |   && wOkS(opts(opt).WithStorageWrapper, blobCt(StGet("token", id).CreationTimeMarshaled), id)
+//@   |   && tsTime(ret.CreationTime) == unMts(wPtS(opts(opt).WithStorageWrapper, blobCt(StGet("token", id).CreationTimeMarshaled), id))
+//@   ensures[* notfound] reliable() && err != nil && isNotFound(err) ==> !StHas("token", id)
